@@ -13,6 +13,7 @@ import errno
 import io
 import os
 import random
+import re
 import sys
 
 from simkit import harness, sched, fs as simfs
@@ -80,6 +81,12 @@ def SWEEP(tier):
                             # other start credentials / ports for the no-fault row
                             out.append({"opts": dict(opts, start="setuid-root-binary"), "fault": None})
                             out.append({"opts": dict(opts, port=7070), "fault": None})
+                            if su or sg or chroot or tls:
+                                for sp in ("upper", "title", "camel"):
+                                    out.append({"opts": dict(opts, spelling=sp), "fault": None})
+                                    if su or sg:
+                                        out.append({"opts": dict(opts, spelling=sp, respell=["setuid", "setgid"]),
+                                                    "fault": None})
                             if su or sg:
                                 # pwd/grp report the id 4294967295 as -1, which set*id() take as "leave unchanged"
                                 out.append({"opts": dict(opts, uid=-1, gid=-1), "fault": None})
@@ -112,7 +119,11 @@ def gen(seed, index, tier):
             "group": rng.choice(["gophers", "nogroup", "www-data"]),
             "port": rng.choice([70, 7070, 443, 1024, 1023]),
             "start": rng.choice(["root", "root", "setuid-root-binary", "unprivileged", "unprivileged-as-target"]),
-            "cwd": rng.choice(["elsewhere", "slash", "root", "below", "prefix-sibling"])}
+            "cwd": rng.choice(["elsewhere", "slash", "root", "below", "prefix-sibling"]),
+            "spelling": rng.choice(["lower", "lower", "upper", "title", "camel"])}
+    if opts["spelling"] != "lower" and rng.random() < 0.6:
+        allnames = ["setuid", "setgid", "usechroot", "enable_tls", "tls_certfile", "tls_keyfile"]
+        opts["respell"] = sorted(rng.sample(allnames, rng.randrange(1, 4)))
     if opts["start"].startswith("unprivileged"):
         opts["port"] = rng.choice([7070, 1024, 70])
     fault = None
@@ -381,6 +392,23 @@ def execute(sc, tape=None):
         cp = harness.base_config(docroot, over)
         with simfs.real_open(confp, "w") as f:
             cp.write(f)
+        if opts.get("spelling", "lower") != "lower":
+            # configparser option names are case-insensitive: "SetUID = gopher" configures what "setuid = gopher" does
+            with simfs.real_open(confp) as f:
+                txt = f.read()
+            respell = {"upper": str.upper, "title": str.title,
+                       "camel": lambda n: {"setuid": "SetUID", "setgid": "SetGID", "usechroot": "useChroot",
+                                           "enable_tls": "Enable_TLS", "tls_certfile": "TLS_CertFile",
+                                           "tls_keyfile": "TLS_KeyFile"}.get(n, n)}[opts["spelling"]]
+            names = opts.get("respell") or ["setuid", "setgid", "usechroot", "enable_tls", "tls_certfile", "tls_keyfile"]
+            txt = re.sub(r"(?m)^(%s)(?=\s*=)" % "|".join(names), lambda mo: respell(mo.group(1)), txt)
+            with simfs.real_open(confp, "w") as f:
+                f.write(txt)
+        if opts["tls"]:
+            # the files exist and are readable (their content is never parsed: load_cert_chain is modelled)
+            for n in ("cert.pem", "key.pem"):
+                with simfs.real_open(os.path.join(base, n), "w") as f:
+                    f.write("-----BEGIN %s-----\n" % n)
         start_cwd = {"elsewhere": "/var/empty/start", "slash": "/", "root": docroot, "below": docroot + "/sub/dir",
                      "prefix-sibling": docroot + "-private"}[opts.get("cwd", "elsewhere")]
         m = Model(opts, sc["fault"], docroot, start_cwd=start_cwd)
